@@ -40,7 +40,6 @@ import (
 // Jan1 is the simulated "now" at the start of a run (the synctest epoch).
 const Jan1 = int64(946684800000)
 
-var runSeq int
 
 type Node struct {
 	C      *core.RunCtx
@@ -74,10 +73,20 @@ func Start(c *core.RunCtx, dir string) (*Node, error) {
 }
 
 // NewTag returns a process-unique suffix for database names.
-func NewTag() string {
-	runSeq++
-	return fmt.Sprintf("%d", runSeq)
+// The suffix is a function of the plan's seed, so that a plan gets the same names as the k-th run of a search
+// process and as the only run of a replay process (names reach paths, sorted maps and trace digests); a seed
+// met again in the same process (shrinking re-executes one plan many times) gets a numbered suffix, because
+// lindb keeps process-wide state per database name.
+func NewTag(c *core.RunCtx) string {
+	n := tagSeen[c.Plan.Seed]
+	tagSeen[c.Plan.Seed] = n + 1
+	if n == 0 {
+		return fmt.Sprintf("%x", c.Plan.Seed)
+	}
+	return fmt.Sprintf("%x-%d", c.Plan.Seed, n)
 }
+
+var tagSeen = map[int64]int{}
 
 func (n *Node) CreateDB(name string, shards int) error {
 	ids := make([]models.ShardID, shards)
